@@ -68,6 +68,19 @@ fn code_of(e: EntityId) -> i128 {
     ((k[0] as i128) << 16) | ((k[1] as i128) << 8) | (k[2] as i128)
 }
 
+/// data above 1024 bytes is reported as `#<len>.<63-bit FNV-1a digest>` (see FragCorr.v)
+fn od(b: &[u8]) -> String {
+    if b.len() > 1024 {
+        let mut h: u64 = 1469598103934665603;
+        for x in b {
+            h = ((h ^ (*x as u64)).wrapping_mul(1099511628211)) & 0x7fff_ffff_ffff_ffff;
+        }
+        format!("#{}.{}", b.len(), h)
+    } else {
+        vh::util::to_hex(b)
+    }
+}
+
 fn item_of(sm: &RtpsSubmessageReadKind) -> Option<String> {
     match sm {
         RtpsSubmessageReadKind::DataFrag(f) => Some(format!(
@@ -78,13 +91,13 @@ fn item_of(sm: &RtpsSubmessageReadKind) -> Option<String> {
             f.fragments_in_submessage(),
             f.fragment_size(),
             f.data_size(),
-            vh::util::to_hex(f.serialized_payload().as_ref())
+            od(f.serialized_payload().as_ref())
         )),
         RtpsSubmessageReadKind::Data(d) => Some(format!(
             "D:{}:{}:{}",
             code_of(d.reader_id()),
             d.writer_sn(),
-            vh::util::to_hex(d.serialized_payload().as_ref())
+            od(d.serialized_payload().as_ref())
         )),
         RtpsSubmessageReadKind::Gap(g) => Some(format!("G:{}", g.gap_start())),
         _ => None,
@@ -371,7 +384,7 @@ fn run_line(line: &str) -> String {
         .reader
         .changes_mut()
         .iter()
-        .map(|c| format!("{}:{}", c.sequence_number, vh::util::to_hex(&c.data_value)))
+        .map(|c| format!("{}:{}", c.sequence_number, od(&c.data_value)))
         .collect();
     format!("{} # {}", obs.join(" | "), ch.join(" "))
 }
